@@ -384,7 +384,10 @@ class TypeChecker(walkers.dag.DagWalker):
                 " terms. Use Iff instead." % str(expression)
             )
         for x in args:
-            if x is None:
+            if x is None or x.is_bool_type():
+                return None
+            elif t.is_user_type() != x.is_user_type():
+                # an object is only comparable with an object, whichever side it is on
                 return None
             elif (
                 t.is_user_type()
@@ -394,15 +397,11 @@ class TypeChecker(walkers.dag.DagWalker):
             ):
                 # check if t and x have at least one common ancestor
                 t = cast(_UserType, t)
-                if x.is_user_type():
-                    x = cast(_UserType, x)
-                    x_ancestors = set(x.ancestors)
-                    if all(t_ancestor not in x_ancestors for t_ancestor in t.ancestors):
-                        return None
-            elif (t.is_int_type() or t.is_real_type()) and not (
-                x.is_int_type() or x.is_real_type()
-            ):
-                return None
+                x = cast(_UserType, x)
+                x_ancestors = set(x.ancestors)
+                if all(t_ancestor not in x_ancestors for t_ancestor in t.ancestors):
+                    return None
+            # int, real and time operands are mutually comparable (as for LE / LT)
         return BOOL
 
     @walkers.handles(OperatorKind.DOT)
